@@ -75,7 +75,9 @@ def run_job(args):
                 if part.counters["evaluations"] == 2:
                     part.sample({"job": job, "choices": choices[:40], "calls": dict(mon.calls), "bad": [list(map(str, b)) for b in mon.bad[:3]]}, cap=1)
 
-            ex, nodes = thrx.explore(scenario, bound, on_exec, horizon=60.0)
+            ex, nodes = thrx.explore(scenario, bound, on_exec, horizon=60.0, policy=job.get("policy", "fair"))
+            if job.get("policy"):
+                part.count("executions_under_policy_" + job["policy"].replace(":", "_"), ex)
             part.count("states", nodes + 1)
     finally:
         if "m" in mon_holder:
@@ -88,9 +90,12 @@ def run(ctx):
     ctx.level = "model_checking"
     jobs = instances(ctx.tier)
     items = [(j, 1 if (ctx.quick or len(j["spec"]["vars"]) > 2) else 2) for j in jobs]
+    for j in jobs:
+        for pol in (c22.POLICIES_QUICK if ctx.quick else c22.POLICIES_THOROUGH):
+            items.append((dict(j, policy=pol), 0 if ctx.quick else 1))
     ctx.rule = (
         "stateless deviation-bounded exploration (fair default schedule + every schedule with <= 1 deviation; thorough: <= 2 on the "
-        "2-variable instances) of the REAL orchestrated run in thread mode (DPOP family of C22 with explicit mappings, plus A-DSA with "
+        "2-variable instances; plus the default execution - thorough: and every single deviation - of other default schedules: most-recently-run thread first, by thread name, a slow orchestrator / agent thread) of the REAL orchestrated run in thread mode (DPOP family of C22 with explicit mappings, plus A-DSA with "
         "periodic actions); in every execution a monitor checks for every start / on_message / pause of every computation, every periodic "
         "action and every discovery callback that the executing controlled thread is the hosting agent's thread and that no other callback "
         "of that agent is active. states = schedule-tree nodes, transitions = scheduling points, traces = executions; the evidence lists the "
@@ -116,7 +121,7 @@ def replay(case):
             mon = rt_common.Monitor()
             mon.install()
             try:
-                sched, result, outcome = thrx.execute(rt_common.solve_scenario(job), choices, horizon=60.0)
+                sched, result, outcome = thrx.execute(rt_common.solve_scenario(job), choices, horizon=60.0, policy=job.get("policy", "fair"))
             finally:
                 mon.uninstall()
     finally:
